@@ -132,6 +132,7 @@ def run_auth(methods, cond, prov_kind, ch, ur=None):
             dropped = False
             steps = 0
             feat = '%s|%s|%s' % (','.join(methods) or '-', cond, prov_kind)
+            protoinfo_normal = False
             path = cookie_path(cond)
             safe_usable = 'SAFECOOKIE' in methods and cookie_usable(cond)
             cookie_m_usable = 'COOKIE' in methods and cookie_usable(cond)
@@ -166,6 +167,7 @@ def run_auth(methods, cond, prov_kind, ch, ur=None):
                 reply = None
                 if cmd == 'PROTOCOLINFO':
                     c = ch.choose(4, 'PROTOCOLINFO')
+                    protoinfo_normal = (c == 0)
                     if c == 0:
                         auth = 'AUTH METHODS=%s' % ','.join(methods)
                         if path is not None:
@@ -272,6 +274,13 @@ def run_auth(methods, cond, prov_kind, ch, ur=None):
             # ------------------------------------------------ oracle at quiescence
             lines, _ = ctl.wire_lines()
             text = [ln.decode('ascii', 'replace') for ln in lines]
+            # a cookie method is advertised but the file cannot be read (absent, or not a regular file): with a working password
+            # provider and HASHEDPASSWORD advertised, the password is what is left - it must be tried
+            if (not auth_sent and challenge is None and protoinfo_normal and not dropped and cond in ('absent', 'dir')
+                    and ('COOKIE' in methods or 'SAFECOOKIE' in methods) and pw_usable and prov_kind in ('pw', 'deferred', 'coroutine')):
+                viol.append(('no-fallback-to-password', 'cookie-%s' % cond,
+                             '[%s] the cookie file is unreadable, HASHEDPASSWORD is advertised and a password provider exists; nothing was sent (%r)'
+                             % (feat, text)))
             # method preference
             if auth_sent:
                 first = auth_sent[0]
